@@ -121,6 +121,9 @@ struct FitOut {
     words_consumed: Option<usize>,
     /// boundary values the fault plan substituted into the forest's seeded generator during this fit
     draw_faults: u64,
+    /// rows that sit exactly on (and one float to either side of) split thresholds of the fitted trees, and
+    /// the forest's predictions for them
+    thr: Option<(Vec<Vec<f64>>, Vec<f64>)>,
     value: Value,
     err: Option<String>,
 }
@@ -143,7 +146,7 @@ fn fit_once_t<T: RealNumber + Serialize + Send + 'static>(case: &Case, ambient: 
     let _plan = StdPlanGuard::install(case.std_fault);
     rand::sim::take_std_faults_fired();
     let p = &case.params;
-    let mut out = FitOut { bytes: vec![], pred: vec![], oob: None, alt: None, single: None, tall: None, repeat_mismatch: None, calls: 0, words_consumed: None, draw_faults: 0, value: Value::Null, err: None };
+    let mut out = FitOut { bytes: vec![], pred: vec![], oob: None, alt: None, single: None, tall: None, repeat_mismatch: None, calls: 0, words_consumed: None, draw_faults: 0, thr: None, value: Value::Null, err: None };
     let mut model_box: Option<Box<dyn std::any::Any + Send>> = None;
     if case.task == "clf" {
         let params = match case.ctor % 3 {
@@ -198,6 +201,12 @@ fn fit_once_t<T: RealNumber + Serialize + Send + 'static>(case: &Case, ambient: 
                 out.bytes = bincode::serialize(&model).unwrap_or_default();
                 out.value = serde_json::to_value(&model).unwrap_or(Value::Null);
                 run_ops::<T>(case, &mut out, &x, &qm, &|m| if via_trait { Predictor::<DenseMatrix<T>, Vec<T>>::predict(&model, m).map(to64) } else { model.predict(m).map(to64) }, &|m| model.predict_oob(m).map(to64));
+                let tr = threshold_rows(case, &out.value);
+                if !tr.is_empty() && out.err.is_none() {
+                    if let Ok(Ok(v)) = guarded(|| model.predict(&mat_t::<T>(&tr))) {
+                        out.thr = Some((tr, to64(v)));
+                    }
+                }
                 model_box = Some(Box::new(model));
             }
         }
@@ -251,6 +260,12 @@ fn fit_once_t<T: RealNumber + Serialize + Send + 'static>(case: &Case, ambient: 
                 out.bytes = bincode::serialize(&model).unwrap_or_default();
                 out.value = serde_json::to_value(&model).unwrap_or(Value::Null);
                 run_ops::<T>(case, &mut out, &x, &qm, &|m| if via_trait { Predictor::<DenseMatrix<T>, Vec<T>>::predict(&model, m).map(to64) } else { model.predict(m).map(to64) }, &|m| model.predict_oob(m).map(to64));
+                let tr = threshold_rows(case, &out.value);
+                if !tr.is_empty() && out.err.is_none() {
+                    if let Ok(Ok(v)) = guarded(|| model.predict(&mat_t::<T>(&tr))) {
+                        out.thr = Some((tr, to64(v)));
+                    }
+                }
                 model_box = Some(Box::new(model));
             }
         }
@@ -261,6 +276,62 @@ fn fit_once_t<T: RealNumber + Serialize + Send + 'static>(case: &Case, ambient: 
     drop(guard);
     out.draw_faults = rand::sim::take_std_faults_fired();
     (out, model_box)
+}
+
+/// up to 12 query rows built from the fitted trees' own split thresholds: a training row whose split feature is set
+/// to the threshold itself and to its two neighbouring floats (of the element type). Random queries never hit a
+/// threshold exactly; these decide which side of `<=` a traversal takes.
+fn threshold_rows(case: &Case, value: &Value) -> Vec<Vec<f64>> {
+    let mut out: Vec<Vec<f64>> = vec![];
+    let trees = match value["trees"].as_array() {
+        Some(t) => t,
+        None => return out,
+    };
+    let p = case.x[0].len();
+    let mut k = 0usize;
+    'outer: for tr in trees.iter() {
+        if let Some(nodes) = tr["nodes"].as_array() {
+            for nd in nodes {
+                if let (Some(j), Some(t)) = (nd["split_feature"].as_u64(), nd["split_value"].as_f64()) {
+                    let j = j as usize;
+                    if j >= p || !t.is_finite() {
+                        continue;
+                    }
+                    let base = &case.x[k % case.x.len()];
+                    k += 1;
+                    let (up, down) = if case.f32m {
+                        let tf = t as f32;
+                        (next_f32(tf, true) as f64, next_f32(tf, false) as f64)
+                    } else {
+                        (next_f64(t, true), next_f64(t, false))
+                    };
+                    for v in [t, up, down] {
+                        let mut row = base.clone();
+                        row[j] = v;
+                        out.push(row);
+                    }
+                    if out.len() >= 12 {
+                        break 'outer;
+                    }
+                }
+            }
+        }
+    }
+    out
+}
+fn next_f64(x: f64, up: bool) -> f64 {
+    if x == 0.0 {
+        return if up { f64::from_bits(1) } else { -f64::from_bits(1) };
+    }
+    let b = x.to_bits();
+    f64::from_bits(if (x > 0.0) == up { b + 1 } else { b - 1 })
+}
+fn next_f32(x: f32, up: bool) -> f32 {
+    if x == 0.0 {
+        return if up { f32::from_bits(1) } else { -f32::from_bits(1) };
+    }
+    let b = x.to_bits();
+    f32::from_bits(if (x > 0.0) == up { b + 1 } else { b - 1 })
 }
 
 /// rebuild every member tree from the forest's serde image and call its real `predict` on `rows`
@@ -558,6 +629,7 @@ impl C06 {
             || a.alt.as_ref().map(|v| bits(v)) != b.alt.as_ref().map(|v| bits(v))
             || a.single.as_ref().map(|v| bits(v)) != b.single.as_ref().map(|v| bits(v))
             || a.tall.as_ref().map(|v| bits(v)) != b.tall.as_ref().map(|v| bits(v))
+            || a.thr.as_ref().map(|v| bits(&v.1)) != b.thr.as_ref().map(|v| bits(&v.1))
         {
             rep.fail("irreproducible", "same-model-different-predictions", format!("{}: twins are byte-identical but predict differently", ctx));
         }
@@ -600,6 +672,12 @@ impl C06 {
         let altm = alt_rows(case);
         let mut q_all = q.clone();
         q_all.extend(altm.iter().cloned());
+        // ... and the rows on the trees' own split thresholds (appended after the op-2 matrix)
+        let thr_at = q_all.len();
+        if let Some((rows, _)) = &a.thr {
+            q_all.extend(rows.iter().cloned());
+            rep.count("steps.threshold-rows", rows.len() as u64);
+        }
         let member: Vec<Vec<f64>> = match if case.f32m { member_predictions::<f32>(&case.task, &trees, &q_all) } else { member_predictions::<f64>(&case.task, &trees, &q_all) } {
             Ok(m) => m,
             Err((t, e)) => {
@@ -648,6 +726,9 @@ impl C06 {
         }
         if let Some(sg) = &a.single {
             to_judge.extend(sg.iter().cloned().map(|v| (v, 0)));
+        }
+        if let Some((_, tp)) = &a.thr {
+            to_judge.extend(tp.iter().cloned().enumerate().map(|(i, v)| (v, thr_at + i)));
         }
         if let Some(tl) = &a.tall {
             to_judge.extend(tl.iter().cloned().enumerate().map(|(i, v)| (v, i % n)));
